@@ -154,6 +154,7 @@ Inductive err :=
 | EValue          (* ValueError: invalid mode, negative seek on BytesIO *)
 | EAttr           (* AttributeError: MemoryPathIO treating a list / BytesIO as the other *)
 | EUnsupported    (* io.UnsupportedOperation: read on a write-only handle and vice versa *)
+| ETimeout        (* asyncio.TimeoutError from with_timeout (AsyncPathIO with a finite path_timeout) *)
 | ERoot.          (* mutation aimed at the root itself: outside the property, not modelled *)
 
 Inductive hres := HPos (z : Z) | HBytes (b : bytes) | HUnit | HErr (e : err).
@@ -296,7 +297,7 @@ Fixpoint node_of_sx (s : sx) : node :=
 Definition err_code (e : err) : Z :=
   match e with
   | ENOENT => 2 | ENOTDIR => 20 | EEXIST => 17 | ENOTEMPTY => 39 | EISDIR => 21 | EINVAL => 22
-  | EValue => 100 | EAttr => 101 | EUnsupported => 102 | ERoot => 199
+  | EValue => 100 | EAttr => 101 | EUnsupported => 102 | ETimeout => 110 | ERoot => 199
   end.
 
 Definition sx_of_hres (h : hres) : sx :=
